@@ -38,6 +38,27 @@ def trimStartMatches (pre : Str) : Nat → Str → Str
 /-- `url_to_key`: `Key::from_file_name(url.to_string().trim_start_matches(base))` -/
 def urlToKey (base : Str) (url : Str) : Str := fromFileName (trimStartMatches base url.length url)
 
+/-- one step of the dot-segment removal of `Url::join` (RFC 3986 §5.2.4 as crate `url` does it for a
+relative reference whose segments are not empty); the path segments are kept reversed.  `..` at the
+root stays at the root. -/
+def urlStep (st : List Str) : Comp → List Str
+  | .cur => st
+  | .parent => st.drop 1
+  | .normal n => n :: st
+
+/-- the path segments of `Url::parse(base).join(rel)` for a base path that ends in `/` and has the
+segments `baseSegs` -/
+def urlResolve (baseSegs : List Str) (rel : List Comp) : List Str :=
+  (rel.foldl urlStep baseSegs.reverse).reverse
+
+/-- `handle_goto_definition`: the URI answered for a link with destination `url` met in note `key`:
+`relative_to_full_path(RelativePath::new(key.parent()).join(url))` — for a base path and a
+destination made of safe characters, the base path without a trailing slash -/
+def definitionTarget (basePath key url : Str) : Str :=
+  let rel := pushStr (parent key) url
+  let rel := trimMd rel ++ ".md".toList
+  "file:///".toList ++ "/".toList.intercalate (urlResolve (pieces [] basePath) (comps rel))
+
 /-- key of a file found on disk (`fs.rs`): directory components joined with `/`, then the file name
 with every trailing `.md` removed -/
 def keyOfFile (dirs : List Str) (fileName : Str) : Str :=
